@@ -350,6 +350,11 @@ func genConc(t *rapid.T, withSched bool) ConcCase {
 	keys := rapid.SampledFrom([]int{1, 1, 2, 2, 3}).Draw(t, "keys")
 	c := ConcCase{Keys: keys}
 	c.Setup = pbt.OpsOf(t, genMOp(4, true), []int{0, 1, 3, 6}, "setup")
+	// half of the cases start from a recipe that reaches a specific internal layout (nil / expunged entries,
+	// amended read map, one miss from promotion), followed by the random setup ops
+	if r := rapid.IntRange(0, 2*len(setupRecipes)-1).Draw(t, "recipe"); r < len(setupRecipes) {
+		c.Setup = append(append([]MOp{}, setupRecipes[r]...), c.Setup...)
+	}
 	nth := rapid.SampledFrom([]int{2, 2, 2, 3, 3, 4}).Draw(t, "threads")
 	withRange := rapid.IntRange(0, 3).Draw(t, "withrange") == 0
 	for i := 0; i < nth; i++ {
